@@ -866,12 +866,37 @@ func (txn *V2Transaction) EphemeralSiafundOutput(i int) SiafundElement {
 	}
 }
 
+// deepCopyPolicy returns a copy of p that does not alias any of its memory.
+func deepCopyPolicy(p SpendPolicy) SpendPolicy {
+	switch t := p.Type.(type) {
+	case PolicyTypeThreshold:
+		of := make([]SpendPolicy, len(t.Of))
+		for i := range t.Of {
+			of[i] = deepCopyPolicy(t.Of[i])
+		}
+		if t.Of == nil {
+			of = nil
+		}
+		return SpendPolicy{PolicyTypeThreshold{N: t.N, Of: of}}
+	case PolicyTypeUnlockConditions:
+		pks := slices.Clone(t.PublicKeys)
+		for i := range pks {
+			pks[i].Key = slices.Clone(pks[i].Key)
+		}
+		t.PublicKeys = pks
+		return SpendPolicy{t}
+	default:
+		return p
+	}
+}
+
 // DeepCopy returns a copy of txn that does not alias any of its memory.
 func (txn *V2Transaction) DeepCopy() V2Transaction {
 	c := *txn
 	c.SiacoinInputs = slices.Clone(c.SiacoinInputs)
 	for i := range c.SiacoinInputs {
 		c.SiacoinInputs[i].Parent = c.SiacoinInputs[i].Parent.Copy()
+		c.SiacoinInputs[i].SatisfiedPolicy.Policy = deepCopyPolicy(c.SiacoinInputs[i].SatisfiedPolicy.Policy)
 		c.SiacoinInputs[i].SatisfiedPolicy.Signatures = slices.Clone(c.SiacoinInputs[i].SatisfiedPolicy.Signatures)
 		c.SiacoinInputs[i].SatisfiedPolicy.Preimages = slices.Clone(c.SiacoinInputs[i].SatisfiedPolicy.Preimages)
 	}
@@ -879,6 +904,7 @@ func (txn *V2Transaction) DeepCopy() V2Transaction {
 	c.SiafundInputs = slices.Clone(c.SiafundInputs)
 	for i := range c.SiafundInputs {
 		c.SiafundInputs[i].Parent = c.SiafundInputs[i].Parent.Copy()
+		c.SiafundInputs[i].SatisfiedPolicy.Policy = deepCopyPolicy(c.SiafundInputs[i].SatisfiedPolicy.Policy)
 		c.SiafundInputs[i].SatisfiedPolicy.Signatures = slices.Clone(c.SiafundInputs[i].SatisfiedPolicy.Signatures)
 		c.SiafundInputs[i].SatisfiedPolicy.Preimages = slices.Clone(c.SiafundInputs[i].SatisfiedPolicy.Preimages)
 	}
@@ -891,11 +917,24 @@ func (txn *V2Transaction) DeepCopy() V2Transaction {
 	c.FileContractResolutions = slices.Clone(c.FileContractResolutions)
 	for i := range c.FileContractResolutions {
 		c.FileContractResolutions[i].Parent = c.FileContractResolutions[i].Parent.Copy()
-		if res, ok := c.FileContractResolutions[i].Resolution.(*V2StorageProof); ok {
-			sp := *res
-			sp.ProofIndex = sp.ProofIndex.Copy()
-			sp.Proof = slices.Clone(sp.Proof)
-			c.FileContractResolutions[i].Resolution = &sp
+		switch res := c.FileContractResolutions[i].Resolution.(type) {
+		case *V2StorageProof:
+			if res != nil {
+				sp := *res
+				sp.ProofIndex = sp.ProofIndex.Copy()
+				sp.Proof = slices.Clone(sp.Proof)
+				c.FileContractResolutions[i].Resolution = &sp
+			}
+		case *V2FileContractRenewal:
+			if res != nil {
+				r := *res
+				c.FileContractResolutions[i].Resolution = &r
+			}
+		case *V2FileContractExpiration:
+			if res != nil {
+				e := *res
+				c.FileContractResolutions[i].Resolution = &e
+			}
 		}
 	}
 	c.Attestations = slices.Clone(c.Attestations)
@@ -903,6 +942,10 @@ func (txn *V2Transaction) DeepCopy() V2Transaction {
 		c.Attestations[i].Value = slices.Clone(c.Attestations[i].Value)
 	}
 	c.ArbitraryData = slices.Clone(c.ArbitraryData)
+	if c.NewFoundationAddress != nil {
+		addr := *c.NewFoundationAddress
+		c.NewFoundationAddress = &addr
+	}
 	return c
 }
 
